@@ -168,12 +168,13 @@ func init() {
 		d := durationArg(a[1], "context.WithTimeout")
 		c, fn := withCancel(ctxFromValue(a[0]))
 		c.typ = ctxTypeOf("timerCtx", true)
+		exceeded := ctxGlobalErr("DeadlineExceeded")
 		c.deadline, c.hasDL = R.now+d, true
 		if d <= 0 {
-			c.cancel(ctxGlobalErr("DeadlineExceeded"))
+			c.cancel(exceeded)
 		} else {
 			c.tm = R.newTimer(d, fmt.Sprintf("context deadline %dns", d), func() {
-				c.cancel(ctxGlobalErr("DeadlineExceeded"))
+				c.cancel(exceeded)
 			})
 		}
 		return tuple{ctxIface(c), fn}
